@@ -489,7 +489,7 @@ func Drive(run *common.Run, prop string, b Budget) {
 
 func implLine(res *Result) string {
 	if res.Root2 < 0 && res.Err != nil && len(res.Toks) == 1 {
-		return "PROLOGUE-ERR"
+		return "PROLOGUE-ERR" + implSel(res)
 	}
 	return ImplObs(res)
 }
